@@ -13,142 +13,6 @@ Per format `X`:  `norm_X`  : decoding the canonical form = decoding the original
 namespace C04
 open Gen
 
-/-- clear bits `lo..hi` -/
-def clr (w lo hi : Nat) : Nat := w - extractBits w lo hi * 2 ^ lo
-
-/-- does a 4-byte format consume the dword behind the first one (literal, SDWA dword, K constant) -/
-def usesSecond4 (ft : Nat) (row : Row) (w0 : Nat) : Bool :=
-  if ft == FT_SOP2 || ft == FT_SOPC then extractBits w0 0 7 == 255 || extractBits w0 8 15 == 255
-  else if ft == FT_SOP1 then extractBits w0 0 7 == 255
-  else if ft == FT_VOP1 || ft == FT_VOPC then extractBits w0 0 8 == 255
-  else if ft == FT_VOP2 then extractBits w0 0 8 == 249 || extractBits w0 0 8 == 255 || isKOpcode row.opcode
-  else false
-
-/-- SDWA dword: OMOD (14..15), the reserved bit 22 and bit 23 (the ISA's S0 — the decoder reads bit 30 instead) are not
-    read; DST_UNUSED 3 is decoded like 0 -/
-def normSdwa (sd : Nat) : Nat :=
-  let a := clr (clr sd 14 15) 22 23
-  if extractBits sd 11 12 == 3 then clr a 11 12 else a
-
-def normRow (c : Bool) (ft : Nat) (row : Row) (w0 : Nat) (w1? : Option Nat) : Nat × Option Nat :=
-  if ft == FT_SMEM then
-    -- first dword: bits 13..15 (SOE/NV and a reserved bit) are not read; second dword: a 20-bit offset
-    -- (21 bits for a CDNA3 immediate)
-    (clr w0 13 15,
-     w1?.map fun w1 => if c && extractBits w0 17 17 != 0 then extractBits w1 0 20 else extractBits w1 0 19)
-  else if ft == FT_VOP3a then
-    -- OP_SEL bits 11..14 are read only by the packed rows 944 (all four) and 945/946 (11..12); SRC2 only by
-    -- three-source rows
-    ((if row.opcode == 944 then w0 else if 945 ≤ row.opcode && row.opcode ≤ 946 then clr w0 13 14 else clr w0 11 14),
-     w1?.map fun w1 => if row.src2W != 0 then w1 else clr w1 18 26)
-  else if ft == FT_VOP3b then
-    ((if row.opcode > 255 then w0 else clr w0 0 7),
-     w1?.map fun w1 => if row.opcode > 255 && row.src2W > 0 then w1 else clr w1 18 26)
-  else if ft == FT_DS then
-    -- bit 25 is neither encoding nor opcode; DATA0 / DATA1 / VDST are read only when the row has that operand
-    (clr w0 25 25,
-     w1?.map fun w1 =>
-       let a := if row.src0W > 0 then w1 else clr w1 8 15
-       let b := if row.src1W > 0 then a else clr a 16 23
-       if row.dstW > 0 then b else clr b 24 31)
-  else if ft == FT_FLAT then
-    -- bit 13 (LDS) and bit 25 are not read; SEG (14..15) is read only by a CDNA3 disassembler, only when
-    -- SADDR ≠ 0x7F, and then only as "SEG ≠ 0" (canonical value 1)
-    (let a := clr (clr (clr w0 13 13) 14 15) 25 25
-     match w1? with
-     | none => a
-     | some w1 =>
-       if c && extractBits w1 16 22 != 0x7F && extractBits w0 14 15 != 0 then a + 2 ^ 14 else a,
-     w1?)
-  else if ft == FT_VOP2 && extractBits w0 0 8 == 249 then (w0, w1?.map normSdwa)
-  else (w0, if usesSecond4 ft row w0 then w1? else none)
-
-/-! ## reading a description back from an instruction -/
-
-def Opnd.code : Opnd → Nat
-  | .reg c _ _ => c
-  | .int c _ => c
-  | .float c => c
-  | .lit c _ => c
-
-def ocode (o : Option Opnd) : Nat :=
-  match o with
-  | some x => x.code
-  | none => 0
-
-def olit (o : Option Opnd) : Option Nat :=
-  match o with
-  | some (.lit _ v) => some v
-  | _ => none
-
-def oint (o : Option Opnd) : Int :=
-  match o with
-  | some (.int _ v) => v
-  | _ => 0
-
-def ocount (o : Option Opnd) : Nat :=
-  match o with
-  | some (.reg _ _ n) => n
-  | _ => 0
-
-/-- 1 when the operand is a scalar register `s<k>` (register index from `R_S0` up), 0 for a VGPR -/
-def oIsSreg (o : Option Opnd) : Nat :=
-  match o with
-  | some (.reg _ idx _) => if idx ≥ R_S0 then 1 else 0
-  | _ => 0
-
-def orr (a b : Option Nat) : Option Nat :=
-  match a with
-  | some v => some v
-  | none => b
-
-def b2n (b : Bool) : Nat := if b then 1 else 0
-
-/-- inverse of `sdwaSel` (the reserved selector 7 gives mask 0) -/
-def selInv (m : Nat) : Nat :=
-  if m == 0xff then 0 else if m == 0xff00 then 1 else if m == 0xff0000 then 2 else if m == 0xff000000 then 3
-  else if m == 0xffff then 4 else if m == 0xFFFF0000 then 5 else if m == 0xFFFFFFFF then 6 else 7
-
-/-- the description a decoded instruction came from (fields the decoder does not read: 0) -/
-def descOf (c : Bool) (i : Inst) : Desc :=
-  let d : Desc := { ft := i.ft, op := i.opcode }
-  if i.ft == FT_SOP2 then
-    { d with ssrc0 := ocode i.src0, ssrc1 := ocode i.src1, sdst := ocode i.dst, lit := orr (olit i.src0) (olit i.src1) }
-  else if i.ft == FT_SOPK then { d with sdst := ocode i.dst, simm16 := (oint i.simm16).toNat }
-  else if i.ft == FT_SOP1 then { d with ssrc0 := ocode i.src0, sdst := ocode i.dst, lit := olit i.src0 }
-  else if i.ft == FT_SOPC then
-    { d with ssrc0 := ocode i.src0, ssrc1 := ocode i.src1, lit := orr (olit i.src0) (olit i.src1) }
-  else if i.ft == FT_SOPP then { d with simm16 := (oint i.simm16).toNat }
-  else if i.ft == FT_VOP2 then
-    if i.isSdwa then
-      { d with sdwa := 1, src0 := ocode i.src0, vsrc1 := ocode i.src1, vdst := ocode i.dst, s0 := 0, s1 := oIsSreg i.src1,
-               dstSel := selInv i.dstSel, dstUnused := i.dstUnused, src0Sel := selInv i.src0Sel,
-               src1Sel := selInv i.src1Sel }
-    else
-      { d with src0 := ocode i.src0, vsrc1 := ocode i.src1, vdst := ocode i.dst, lit := orr (olit i.src0) (olit i.src2) }
-  else if i.ft == FT_VOP1 then
-    { d with src0 := ocode i.src0, vdst := (if i.opcode == 2 then ocode i.dst else ocode i.dst - 256), lit := olit i.src0 }
-  else if i.ft == FT_VOPC then { d with src0 := ocode i.src0, vsrc1 := ocode i.src1, lit := olit i.src0 }
-  else if i.ft == FT_SMEM then
-    { d with sbase := ocode i.base / 2, sdata := ocode i.data, imm := b2n i.imm, glc := b2n i.glc,
-             offset := (if i.imm then (oint i.offset % 2 ^ 21).toNat else ocode i.offset) }
-  else if i.ft == FT_VOP3a then
-    { d with vdst := ocode i.dst, abs := i.abs, clamp := b2n i.clamp,
-             opsel := (if i.opcode == 944 then i.opSel + i.opSelHi / 4 * 8
-                       else if 945 ≤ i.opcode && i.opcode ≤ 946 then i.opSel else 0),
-             src0 := ocode i.src0, src1 := ocode i.src1, src2 := ocode i.src2, omod := i.omod, neg := i.neg }
-  else if i.ft == FT_VOP3b then
-    { d with vdst := ocode i.dst, sdst := ocode i.sdst, clamp := b2n i.clamp,
-             src0 := ocode i.src0, src1 := ocode i.src1, src2 := ocode i.src2, omod := i.omod, neg := i.neg }
-  else if i.ft == FT_DS then
-    { d with offset0 := (if dsSeparateOffsets i.opcode then i.offset0 else i.offset0 % 256), offset1 := i.offset1,
-             gds := b2n i.gds, addr := ocode i.addr, data0 := ocode i.data, data1 := ocode i.data1, vdst := ocode i.dst }
-  else if i.ft == FT_FLAT then
-    { d with offset := i.offset0 % 8192, seg := (if c && ocount i.addr == 1 then 1 else 0),
-             glc := b2n i.glc, slc := b2n i.slc, tfe := b2n i.tfe,
-             addr := ocode i.addr, data := ocode i.data, saddr := (oint i.saddr).toNat, vdst := ocode i.dst }
-  else d
-
 /-! ## shared small facts -/
 
 theorem getOperand_code_tab : ∀ n, n < 512 →
